@@ -476,6 +476,33 @@ Definition do_fresh (cycles fuel : nat) (tk : T) (limit : option T) (tyme0 : T) 
     cycle_loop tk cycles fuel (set_rlive s1 true) lim stop
   end.
 
+(* ---------- the manual API: doist.enter(); n times doist.recur(); doist.exit() ----------
+   Doist.recur() is one pass followed by tick(); a raise out of enter or recur is followed by the caller's
+   doist.exit() (try/finally in the application) and propagates. *)
+Fixpoint manual_recurs (n fuel : nat) (tk : T) (s : st) : st * bool :=
+  match n with
+  | O => (s, false)
+  | S m =>
+    let '(s1, r) := recur_pass tk fuel s 0%N in
+    match r with
+    | GRaise _ => (s1, true)
+    | GFuel => (s1, true)
+    | _ => manual_recurs m fuel tk (set_tyme s1 (tadd (tyme s1) tk))
+    end
+  end.
+
+Definition manual_run (n fuel : nat) (p : prog) : st :=
+  (* nothing sets the Doist's own .done on this path: it stays None *)
+  let '(s1, r) := enter_own (p_tock p) fuel (set_done (init_st p) 0%N None) 0%N (p_doers p) in
+  match r with
+  | GRaise _ => emit (close_own (p_tock p) fuel s1 0%N) DoRaise 0%N
+  | GFuel => s1
+  | _ =>
+    let '(s2, bad) := manual_recurs n fuel (p_tock p) (set_rlive s1 true) in
+    if oof s2 then s2
+    else emit (close_own (p_tock p) fuel s2 0%N) (if bad then DoRaise else DoReturn) 0%N
+  end.
+
 (* ---------- Doist.ado ----------
    In doing.py `ado` is a second, separately written copy of the body of `do`
    (enter, limit Tymer, the cycle loop with its two stop tests, exit in the
